@@ -10,13 +10,18 @@ Transcribed (snapshot ef0888e):
   `return`), `requiredPrivilegeForHTTPMethod`, `authorizeRequest`, `authorize`/`authorizeForward`,
   the database check of `serveWriteLine`, `ServeHTTP` (method table), `rewritePreview`, the `cors` filter
   (OPTIONS never reaches a handler); `services/httpd/mux.go`: `cleanPath` redirect, `pathMatch`, longest match.
+* `net/http` + `net/url` in front of the handler (modelled, tied differentially by the `httpraw` cases): the request
+  target of the request line becomes `r.URL.Path` by ONE pass of percent-decoding (`parseTarget`, `pctDecode`);
+  the mux and `authorizeRequest` both read that decoded path, nothing in services/httpd looks at the raw form
+  (`RequestURI`/`RawPath` are used by the request logger only). `Handler.AddRoute`/`AddPreviewRoute`: `addRoutePattern`.
 * Tables (privilege bits, resource roots/suffixes, BasePath, method switch, the `default:` return flag) are NOT
   written here: they come from `Kap/Gen/C20.lean`, regenerated from the Go source on every run.
 
 Go standard library, modelled and tied differentially (not verified): `path.Clean` as a segment stack machine,
 `path.Join`, `path.Dir` (= `Clean` of the prefix up to the last '/'), `path.IsAbs`, `strings.Replace`,
-`strings.TrimPrefix`, `strings.ToUpper` (ASCII). Strings are `List Char` ('/', '.', '_' are ASCII, so the byte
-level and the character level agree on valid UTF-8).
+`strings.TrimPrefix`, `strings.ToUpper` (ASCII). Strings are `List Char`; Go strings are BYTE strings, which the driver
+reads as Latin-1 (byte b = the character with code b, `B.emb`): Kap/Model/C20Bytes.lean gives the same definitions over
+any character type with the byte instance, Kap/Proofs/C20Bytes.lean proves that they commute with the reading.
 
 Abstracted: JWT validation is an oracle (`Bearer.sigOK`, `exp`), the fake auth service is a finite table,
 request bodies of `/write` are always one well-formed point, gzip/json/version/requestID/log filters are
@@ -484,5 +489,49 @@ two passes are all that can happen; 508 = fuel exhausted never shows). -/
 def serveHTTP (cfg : Cfg) : Nat → Req → HttpOut
   | 0, _ => { status := 508 }
   | fuel + 1, req => serveLevel cfg (serveHTTP cfg fuel) req
+
+/-! ### in front of the handler: request target → `r.URL.Path` -/
+
+def hexVal? (c : Char) : Option Nat :=
+  if '0' ≤ c ∧ c ≤ '9' then some (c.toNat - '0'.toNat)
+  else if 'a' ≤ c ∧ c ≤ 'f' then some (c.toNat - 'a'.toNat + 10)
+  else if 'A' ≤ c ∧ c ≤ 'F' then some (c.toNat - 'A'.toNat + 10)
+  else none
+
+/-- `url.unescape(s, encodePath)`: every "%XY" becomes the byte XY — one pass, the output is not looked at again;
+a '%' that is not followed by two hex digits is an error. -/
+def pctDecode : List Char → Option (List Char)
+  | [] => some []
+  | '%' :: a :: b :: rest =>
+    match hexVal? a, hexVal? b, pctDecode rest with
+    | some x, some y, some r => some (Char.ofNat (16 * x + y) :: r)
+    | _, _, _ => none
+  | '%' :: _ => none
+  | c :: rest =>
+    match pctDecode rest with
+    | some r => some (c :: r)
+    | none => none
+
+/-- `http.ReadRequest` → `url.ParseRequestURI` on an origin-form request target: a space or control byte anywhere
+makes the request line malformed; the path is what precedes the first '?'; it must begin with '/' and unescape.
+`none` = net/http answers 400 by itself, no handler of kapacitor runs. -/
+def parseTarget (raw : List Char) : Option Path :=
+  if raw.any (fun c => decide (c.toNat ≤ 0x20 ∨ c.toNat = 0x7f)) then none
+  else
+    let p := raw.takeWhile (· ≠ '?')
+    if !isAbs p then none else pctDecode p
+
+structure RawReq where
+  method : List Char
+  target : List Char            -- the request target as it stands in the request line
+  auth : ReqAuth := {}
+  db : List Char := []
+deriving Repr, DecidableEq
+
+/-- A request as it arrives on the wire. -/
+def serveRaw (cfg : Cfg) (fuel : Nat) (r : RawReq) : Option HttpOut :=
+  match parseTarget r.target with
+  | none => none
+  | some p => some (serveHTTP cfg fuel { method := r.method, path := p, auth := r.auth, db := r.db })
 
 end Kap.C20
